@@ -443,8 +443,8 @@ func runDeriv(c *Ctx) {
 	for d := 1; d <= extraDepth; d++ {
 		for _, m := range pool[d] {
 			addH2C(m, "pool")
+			c.Hist("h2c-pool", fmt.Sprintf("depth=%02d", d))
 		}
-		c.Hist("h2c-pool", fmt.Sprintf("depth=%02d", d))
 		if d <= maxDepth && len(pool[d]) < want {
 			c.Res.Notes = append(c.Res.Notes, fmt.Sprintf("depth pool short: depth %d has %d", d, len(pool[d])))
 		}
